@@ -8,7 +8,7 @@ RULE = ("for valid SPEC-generated exchanges (Valve: info / players / rules units
         "per-attempt outcome vector over {S silent, F send fault, M malformed, V valid} of length <= r+2 (r in 0..3; quick: "
         "all vectors on a few bases, thorough: on many) is injected at each unit — for units that start with a handshake or challenge "
         "round (Valve and the games on it, GameSpy 3) both at the first exchange of an attempt and at its last one, after the earlier "
-        "ones were answered; attempts are counted on the wire "
+        "ones were answered; and recovering vectors at two or three units of one query at once (each unit has its own r+1 tries); attempts are counted on the wire "
         "(initial request of that unit), the result is compared with the fault-free result. Non-trivial = a delivery was "
         "received; distinct = distinct implementation outputs.")
 ASSUMPTIONS = ["timeouts are scripted deliveries (silence); real socket timeouts are C12's subject"]
@@ -75,9 +75,47 @@ def run(rep, tier, seed, replay=None):
                         cases.append(fmod.c10_build(b, unit, v, r, cid))
                         meta[cid] = (b, unit, v, r, fmod)
 
+    # several units of ONE query each losing some attempts (every unit has its own r + 1 tries: what an earlier unit
+    # used up must not be missing later): recovering vectors S/F^k V with k <= r at two or three units at once
+    multi = {}
+    for fam in netprops.FAMILIES:
+        fmod = importlib.import_module("props.families." + fam)
+        if not hasattr(fmod, "c10_build_multi"):
+            continue
+        valids = [v for v in netprops.valid_cases(fam, seed + 77, 400 if tier == "quick" else 4000) if fmod.c10_eligible(v)]
+        for bi, b in enumerate(valids[: (6 if tier == "quick" else 60)]):
+            units = fmod.c10_units(b)
+            sections = sorted(set(u % 3 for u in units))
+            if len(sections) < 2:
+                continue
+            for r in (1, 2, 3):
+                for rep_i in range(3 if tier == "quick" else 8):
+                    chosen = {}
+                    for sec in sections:
+                        cand = [u for u in units if u % 3 == sec]
+                        k = rnd.choice([0, 1, r, rnd.randrange(0, r + 1)])
+                        chosen[rnd.choice(cand)] = "".join(rnd.choice("SSF") for _ in range(k)) + "V"
+                    if sum(1 for v in chosen.values() if len(v) > 1) < 2:
+                        continue
+                    cid = f"{b.id}m{r}_{rep_i}_" + "_".join(f"{u}{v}" for u, v in sorted(chosen.items()))
+                    cases.append(fmod.c10_build_multi(b, chosen, r, cid))
+                    multi[cid] = (b, chosen, r, fmod)
+
     def oracle(case, impl, model, panic):
         out = netprops.crash_oracle(case, impl, model, panic)
         cid = case.split(" ", 1)[0]
+        if cid in multi and not out:
+            b, chosen, r, fmod = multi[cid]
+            rep.count("multi-unit-vectors")
+            got = vlib.result_of(impl)
+            if got != b.want:
+                out.append((f"retry-result-multi:{b.fam}", f"r={r}, vectors {chosen}: every unit lost at most r attempts, yet the result differs from the fault-free one: {got[:200]}"))
+            else:
+                for u, v in chosen.items():
+                    attempts = fmod.c10_attempts(b, u, vlib.sends_of(impl), True)
+                    if attempts != len(v):
+                        out.append((f"retry-attempts-multi:{b.fam}", f"r={r}, vectors {chosen}: unit {u} was tried {attempts} times, expected {len(v)}"))
+            return out
         if cid not in meta or out:
             return out
         b, unit, v, r, fmod = meta[cid]
